@@ -41,6 +41,7 @@ def gen_design(r, ncells=None, nlibs=None):
     nlibs = nlibs or r.choice([1, 2, 2, 3])
     libs = [{"name": namedef("lib", 0.2), "cells": [], "external": (k == 0 and r.random() < 0.2)} for k in range(nlibs)]
     cells = []      # (lib index, cell)
+    shared_buses = []
     li = 0
     ncells = ncells or r.randint(2, 8)
     for k in range(ncells):
@@ -92,10 +93,18 @@ def gen_design(r, ncells=None, nlibs=None):
                 nets.append({"base": None, "index": None, "name": namedef("net", 0.3), "joined": joined})
             # bus nets: bits in random order, possibly with gaps
             prev_bus = None
+            mine = []
             for j in range(r.randint(0, 2)):
                 bid = ident("bus")
                 x = r.random()
                 bname = bid if x < 0.5 else (bid + "$o" if x < 0.8 else "%s[%d]" % (bid, r.randint(0, 3)))   # 2-D style base names
+                free_ = [sb for sb in shared_buses if sb not in mine]
+                if free_ and r.random() < 0.5:
+                    # the usual thing: cell after cell has a bus called  data  (same identifier, same name, another cell)
+                    bid, bname = r.choice(free_)
+                elif r.random() < 0.5:
+                    shared_buses.append((bid, bname))
+                mine.append((bid, bname))
                 if prev_bus is not None and prev_bus[0] != prev_bus[1] and r.random() < 0.6:
                     bname = prev_bus[0]         # crossing: this bus is NAMED like the identifier of its sibling (whose name differs)
                 prev_bus = (bid, bname)
@@ -107,6 +116,13 @@ def gen_design(r, ncells=None, nlibs=None):
                     nets.append({"base": (bid, bname), "index": ix, "name": ("%s_%d_" % (bid, ix), "%s[%d]" % (bname, ix)),
                                  "joined": joined})
             r.shuffle(nets)
+            for sb in mine:
+                # ... whose bits stand first or last among the nets of the cell (next to the nets of the neighbouring cell)
+                x = r.random()
+                if x < 0.6:
+                    bits_ = [nt for nt in nets if nt["base"] == sb]
+                    rest_ = [nt for nt in nets if nt["base"] != sb]
+                    nets = bits_ + rest_ if x < 0.3 else rest_ + bits_
             cell["nets"] = nets
         libs[li]["cells"].append(cell)
         cells.append((li, cell))
